@@ -193,6 +193,11 @@ def run_product(st, opts):
         g = rand_tt(tt, gshape, 1, gen, dt)
     elif cfg["guess"] == "big":
         g = raw_tt(tt, gshape, 5, gen, dt)
+    elif cfg["guess"] == "zero":
+        g = tt.zeros(gshape, dtype=dt)                 # a user-supplied guess that happens to vanish
+    elif cfg["guess"] in ("exact1", "exact2"):
+        # the exact result (TT-SVD of the dense reference at machine precision) as the guess, and a sweep budget of 1 or 2
+        g = tt.TT(ref.clone(), gshape if gkind == "ttm" else None, eps=1e-14)
     elif cfg["guess"] == "alias":
         g = ops[1] if op != "amen_mm" else None        # the operand itself as the initial guess (square modes)
         if op == "amen_mm":
@@ -200,14 +205,16 @@ def run_product(st, opts):
     allobjs = ops + ([g] if g is not None and g is not ops[1] else [])
     allnames = names + (["guess"] if g is not None and g is not ops[1] else [])
 
+    kw = {"nswp": int(cfg["guess"][-1])} if cfg["guess"] in ("exact1", "exact2") else {}
+
     def call():
         if op == "fast_matvec":
-            return ops[0].fast_matvec(ops[1], eps=eps, initial=g, use_cpp=use_cpp)
+            return ops[0].fast_matvec(ops[1], eps=eps, initial=g, use_cpp=use_cpp, **kw)
         if op == "amen_mv":
-            return tt.amen_mv(ops[0], ops[1], x0=g, eps=eps)
+            return tt.amen_mv(ops[0], ops[1], x0=g, eps=eps, **kw)
         if op == "amen_mm":
-            return tt.amen_mm(ops[0], ops[1], X0=g, eps=eps)
-        return tt.dmrg_hadamard(ops[0], ops[1], z0=g, eps=eps)
+            return tt.amen_mm(ops[0], ops[1], X0=g, eps=eps, **kw)
+        return tt.dmrg_hadamard(ops[0], ops[1], z0=g, eps=eps, **kw)
     ncalls = 2 if cfg["guess"] == "reused" else 1
     traces = []
     from torchtt import _verif
